@@ -1271,6 +1271,8 @@ var corpus = []envCase{
 	{[]string{`f1 = () => {a || b}`, `f2 = () => {a = 3}`, `f3 = () => {return 1}`, `g1 = () => {a && b}`, `f9 = (a) => {a := 1}`, `g8 = () => {/*c*/}`, `g3 = () => {1:2}`}, 0},
 	{[]string{`f = (a,b,c) => a+(b+c)`}, 0},
 	{[]string{`func f(a,b,c) {a - -b*c}`, `g = (a,b,c) => a + +b/c - -a%c`, `func h(a,b) {[a - -b*2][0] + max(a - -b/2, a)}`}, 0}, // round 11: the signed operand is the leftmost leaf of the right operand
+	// round 12: a right operand in parentheses under the SAME operator, for every operator but + (the recorded a+(b+c) finding): the saved text must keep the grouping
+	{[]string{`func vol(w,h,d) {w*(h*d)}`, `func q(a,b,c) {a-(b-c)}`, `dv = (a,b,c) => a/(b/c)`, `md = (a,b,c) => a%(b%c)`, `func an(a,b,c) {a&&(b&&c)}`, `func orr(a,b,c) {a||(b||c)}`, `sh = (a,b,c) => a<<(b<<c)`, `func bx(a,b,c) {[a&(b&c), a|(b|c), a^(b^c), a>>(b>>c)]}`, `func mx(a,b,c) {a*(b/c) + a/(b*c) - a*(b%c)}`}, 0},
 	{[]string{`func f(a,b) {a;-b}`}, 0},
 	{[]string{`f = a => (1).x`}, 0},
 	{[]string{`func f(a,b) {a +
